@@ -636,3 +636,43 @@ def check_c14(tier, t0):
 
 
 CHECKS["C14"] = check_c14
+
+
+# ------------------------------------------------------------------------------------------------
+# C08  JSON conversion
+# ------------------------------------------------------------------------------------------------
+def check_c08(tier, t0):
+    from common import run_tlc, tlc_require_clean, workdir
+    wd = workdir("C08-%s" % tier)
+    mc = run_tlc("JsonModel.tla", "JsonModel.cfg", wd, timeout=1500)
+    if mc["violated"]:
+        raise ToolError("design-level invariant %s violated in JsonModel.tla" % mc["violated"])
+    tlc_require_clean(mc, "JsonModel")
+    os.remove(mc["out_path"])
+    walks, nw, mcw = gen_walks(wd, tier)
+    cases, n, mcf, cfg = run_fieldformats(wd, tier)
+    out = os.path.join(wd, "out.json")
+    run_harness(["json", "--walks", walks, "--fields", cases, "--out", out, "--policies", "4" if tier == "thorough" else "3"])
+    s = json.load(open(out))
+    vio = [{"sig": v["sig"], "replay": v["replay"]} for v in s["violations"]]
+    log("[C08] %d messages and %d field values through to_value / from_value / publish_mt / parse_mt, %d mismatch signatures" %
+        (s["evaluated"], s["field_level"], len(vio)))
+    cov = {
+        "states": mc["distinct"] + mcw["distinct"] + mcf["distinct"],
+        "transitions": mc["generated"] + mcw["generated"] + mcf["generated"],
+        "traces_validated_against_impl": 0,
+        "evaluations": s["evaluated"] + s["field_level"], "distinct_nontrivial": s["distinct_nontrivial"] + s["field_level"],
+        "rule": "every unmutated layout walk of the 30 types x content policies (typical / alternative / boundary shapes), plus per type "
+                "5 application-header shapes x {no block 3, all 13 block-3 tags, + trailer}, plus every accepted content of the FieldFormats "
+                "shape space at field level; per value: from_value(to_value(v)) equal in JSON and MT text, publish_mt(json) = "
+                "to_mt_message, parse_mt JSON = typed JSON, no empty placeholder under a tag key, numbers finite",
+        "samples": s["samples"] or [{}],
+        "exhaustive": False,
+    }
+    assumptions = ["JsonModel.tla states the grouping / flattening discipline (RoundTrip, OrderPreserved, AbsentNotPlaceholder) and is "
+                   "model-checked on a 3-tag universe; order in the implementation's JSON is witnessed by publish_mt reproducing the text",
+                   "an empty '#' array for a repeating sequence with no occurrence is not counted as a placeholder"]
+    return report("C08", tier, "model_checking", vio, cov, assumptions, t0)
+
+
+CHECKS["C08"] = check_c08
